@@ -176,6 +176,11 @@ pub fn generate(rng: &mut Rng, prop: Prop) -> Scenario {
                 }
                 reset_after = false;
             }
+            if i + 1 < n && f_empty && rng.chance(1, 40) {
+                // a long run of empty same-type fragments in the middle of the split
+                ops.push(Item::new("rec").int("type", ctype as u64).int("ver", ver).bytes("data", &[]).int("rep", *rng.pick(&[31u64, 32, 33, 34, 64, 65, 100, 255, 256, 257, 300])));
+                clean = false;
+            }
             if i + 1 < n {
                 if f_foreign && rng.chance(1, 4) {
                     ops.push(foreign_record(rng, ctype));
@@ -243,6 +248,26 @@ pub fn generate(rng: &mut Rng, prop: Prop) -> Scenario {
         if rng.chance(1, 2) {
             s.push(Item::new("reset"));
         }
+    }
+    if rng.chance(1, 8000) {
+        // a message of almost 10 MiB that COMPLETES (a Finished-typed opaque body, or a certificate
+        // whose body does not parse: either way the defragmentation ends), then - without reset() -
+        // a new fragmented message: "after a completed message it behaves like a fresh parser"
+        let chunk = *rng.pick(&[16384usize, 16640, 16000]);
+        let k = (MAX_DATA - 1 - 16 - rng.urange(0, 40000)) / chunk;
+        let body = 12 + k * chunk;
+        let t = *rng.pick(&[0x14u8, 0x14, 0x0b, 0x10]);
+        let mut first = vec![t, (body >> 16) as u8, (body >> 8) as u8, body as u8];
+        first.extend(rng.bytes(12));
+        s.push(Item::new("rec").int("type", 22).int("ver", 0x0303).bytes("data", &first));
+        s.push(Item::new("rec").int("type", 22).int("ver", 0x0303).int("fill", rng.u8() as u64).int("n", chunk as u64).int("rep", k as u64));
+        // the next message, again fragmented: a first fragment of record size, then its rest
+        let l2 = rng.urange(17000, 32000);
+        let mut f2 = vec![0x14u8, (l2 >> 16) as u8, (l2 >> 8) as u8, l2 as u8];
+        f2.extend(rng.bytes(16000));
+        s.push(Item::new("rec").int("type", 22).int("ver", 0x0303).bytes("data", &f2));
+        s.push(Item::new("rec").int("type", 23).int("ver", 0x0303).bytes("data", &[1, 2, 3]));
+        s.push(Item::new("rec").int("type", 22).int("ver", 0x0303).int("fill", 9).int("n", (l2 - 16000) as u64));
     }
     if f_oversize {
         // an unfinished handshake message fed until the 10 MiB bound, then some more
